@@ -108,10 +108,22 @@ def roundtrip_case(rng):
         tab = getattr(t, name)
         tab.packset_metadata([rb(rng) for _ in range(len(tab))])
     if P > 0 and rng.random() < 0.5:
-        for _ in range(rng.randint(1, 2)):
+        for _ in range(rng.randint(1, 5)):
             l = rng.randrange(a["L"])
-            t.migrations.add_row(l, rng.randint(l + 1, a["L"]), rng.randrange(N), rng.randrange(P), rng.randrange(P), float(rng.randint(0, 3)), metadata=rb(rng))
+            t.migrations.add_row(l, rng.randint(l + 1, a["L"]), rng.randrange(N), rng.randrange(P), rng.randrange(P), float(rng.randint(0, 2)), metadata=rb(rng))
     t.sort()
+    if len(t.migrations) > 1:
+        # any order of migrations with equal times is valid: permute the ties
+        rows = list(t.migrations)
+        groups = {}
+        for r in rows:
+            groups.setdefault(r.time, []).append(r)
+        t.migrations.clear()
+        for tm_ in sorted(groups):
+            g = groups[tm_]
+            rng.shuffle(g)
+            for r in g:
+                t.migrations.append(r)
     ts = t.tree_sequence()
     kinds = ["nodes", "edges", "sites", "mutations", "individuals", "populations", "migrations"]
     bufs = {k: io.StringIO() for k in kinds}
